@@ -37,5 +37,6 @@ def shard(ctx: Ctx) -> None:
     sweep.abandoned_disconnect_sweep(ctx, PROP)
     sweep.reconnect_in_on_stop_sweep(ctx, PROP)
     sweep.outside_loop_client_sweep(ctx, PROP)
+    sweep.dropped_client_sweep(ctx, PROP)
     kinds = ["force", "disconnect", "eof", "rst", "garbage", "bad_pb", "peer_disconnect", "sendfail", "writeraise", "silence", "cancel"]
     sweep.pair_sweep(ctx, PROP, 4000 if ctx.thorough else 250, kinds)
